@@ -48,7 +48,9 @@ func wrapInst(v string, depth int) string {
 // one holds the final $dynamicRef in every form. placement: 0 all embedded in
 // the root's $defs, 1 all supplied by the loader, 2 alternating.
 func Dyn(maxK int, fullK int, yield func(u *Universe)) {
-	allHops := []string{"ref", "items", "allOf", "dynref", "anyOf"}
+	// "ptr" and "anch" enter the next resource through its interior ($defs/entry by
+	// pointer / by $anchor) instead of through its root
+	allHops := []string{"ref", "items", "ptr", "allOf", "anch", "dynref", "anyOf"}
 	for k := 1; k <= maxK; k++ {
 		hops := allHops
 		if k > fullK {
@@ -113,24 +115,35 @@ func Dyn(maxK int, fullK int, yield func(u *Universe)) {
 						for i := 0; i < k; i++ {
 							var body []string
 							body = append(body, fmt.Sprintf(`"$id":"http://h/r%d.json"`, i))
+							var next string // the keyword that leaves this resource
 							if i < k-1 {
 								t := fmt.Sprintf("r%d.json", i+1)
 								switch hops[hop[i]] {
 								case "ref":
-									body = append(body, `"$ref":"`+t+`"`)
+									next = `"$ref":"` + t + `"`
 								case "dynref":
-									body = append(body, `"$dynamicRef":"`+t+`"`)
+									next = `"$dynamicRef":"` + t + `"`
 								case "allOf":
-									body = append(body, `"allOf":[{"$ref":"`+t+`"}]`)
+									next = `"allOf":[{"$ref":"` + t + `"}]`
 								case "items":
-									body = append(body, `"items":{"$ref":"`+t+`"}`)
+									next = `"items":{"$ref":"` + t + `"}`
 								case "anyOf":
-									body = append(body, `"anyOf":[false,{"$ref":"`+t+`"}]`)
+									next = `"anyOf":[false,{"$ref":"` + t + `"}]`
+								case "ptr":
+									next = `"$ref":"` + t + `#/$defs/entry"`
+								case "anch":
+									next = `"$ref":"` + t + `#e"`
 								}
 							} else {
-								body = append(body, `"$dynamicRef":"`+fin+`"`)
+								next = `"$dynamicRef":"` + fin + `"`
 							}
 							defs := fmt.Sprintf(`"m":{%s"const":%d}`, anchorKinds[kind[i]], 10+i)
+							if i > 0 && (hops[hop[i-1]] == "ptr" || hops[hop[i-1]] == "anch") {
+								// entered through its interior: the way on starts at $defs/entry
+								defs += `,"entry":{"$anchor":"e",` + next + `}`
+							} else {
+								body = append(body, next)
+							}
 							res[i] = strings.Join(body, ",") + `,"$defs":{` + defs
 						}
 						docs := map[string]string{}
@@ -200,20 +213,32 @@ func DynTwoScope(yield func(u *Universe)) {
 	for _, c := range combos {
 		for kinds := 0; kinds < 81; kinds++ {
 			ka, kb, kf, kr := kinds%3, kinds/3%3, kinds/9%3, kinds/27%3
-			for pl := 0; pl < 4; pl++ {
+			for pl := 0; pl < 6; pl++ {
 				placement, fin := pl%2, "#n"
-				if pl >= 2 {
+				if pl/2 == 1 {
 					fin = "x.json#n" // the final reference starts in a resource that is never entered
+				}
+				// deep: the $dynamicRef sits one instance level down (under properties/v of f) and the
+				// markers are containers, so that per-call memoisation keyed by (schema, value) is exercised
+				deep := pl/2 == 2
+				mk := func(n int) string {
+					if deep {
+						return fmt.Sprintf("[%d]", n)
+					}
+					return fmt.Sprint(n)
 				}
 				if kf == 2 && fin == "#n" {
 					continue // "#n" would dangle in f
 				}
-				a := `{"$id":"http://h/a.json","$ref":"f.json","$defs":{"m":{` + anchorKinds[ka] + `"const":1}}}`
-				b := `{"$id":"http://h/b.json","$ref":"f.json","$defs":{"m":{` + anchorKinds[kb] + `"const":2}}}`
-				f := `{"$id":"http://h/f.json","$dynamicRef":"` + fin + `","$defs":{"m":{` + anchorKinds[kf] + `"const":3}}}`
+				a := `{"$id":"http://h/a.json","$ref":"f.json","$defs":{"m":{` + anchorKinds[ka] + `"const":` + mk(1) + `}}}`
+				b := `{"$id":"http://h/b.json","$ref":"f.json","$defs":{"m":{` + anchorKinds[kb] + `"const":` + mk(2) + `}}}`
+				f := `{"$id":"http://h/f.json","$dynamicRef":"` + fin + `","$defs":{"m":{` + anchorKinds[kf] + `"const":` + mk(3) + `}}}`
+				if deep {
+					f = `{"$id":"http://h/f.json","properties":{"v":{"$dynamicRef":"` + fin + `"}},"$defs":{"m":{` + anchorKinds[kf] + `"const":` + mk(3) + `}}}`
+				}
 				x := `{"$id":"http://h/x.json","$defs":{"m":{"$dynamicAnchor":"n","const":9}}}`
 				docs := map[string]string{}
-				defs := `"m":{` + anchorKinds[kr] + `"const":4}`
+				defs := `"m":{` + anchorKinds[kr] + `"const":` + mk(4) + `}`
 				if placement == 0 {
 					defs += `,"a":` + a + `,"b":` + b + `,"f":` + f
 					if fin != "#n" {
@@ -227,26 +252,41 @@ func DynTwoScope(yield func(u *Universe)) {
 				}
 				root := `{"$id":"http://h/root.json",` + c.tmpl + `,"$defs":{` + defs + `}}`
 				u := &Universe{Root: root, Base: "http://h/root.json", Docs: docs, Kind: "two-scope " + c.name,
-					Meta: map[string]int{"ka": ka, "kb": kb, "kf": kf, "kr": kr, "offchain": pl / 2, "placement": placement}}
+					Meta: map[string]int{"ka": ka, "kb": kb, "kf": kf, "kr": kr, "offchain": b2i(pl/2 == 1), "deep": b2i(deep), "placement": placement}}
+				vs := vals
+				if deep {
+					vs = nil
+					for _, v := range vals {
+						vs = append(vs, `{"v":[`+v+`]}`)
+					}
+					vs = append(vs, `{"v":{"k":1}}`)
+				}
 				switch c.name {
 				case "prefixItems", "contains-items":
-					for _, x := range vals {
-						for _, y := range vals {
+					for _, x := range vs {
+						for _, y := range vs {
 							u.Insts = append(u.Insts, "["+x+","+y+"]")
 						}
 					}
 				case "properties", "dependentSchemas", "additionalProperties":
-					for _, x := range vals {
-						for _, y := range vals {
+					for _, x := range vs {
+						for _, y := range vs {
 							u.Insts = append(u.Insts, `{"p":`+x+`,"q":`+y+`}`)
 						}
 						u.Insts = append(u.Insts, `{"p":`+x+`}`, `{"q":`+x+`}`)
 					}
 				default:
-					u.Insts = append(u.Insts, vals...)
+					u.Insts = append(u.Insts, vs...)
 				}
 				yield(u)
 			}
 		}
 	}
+}
+
+func b2i(b bool) int {
+	if b {
+		return 1
+	}
+	return 0
 }
